@@ -269,6 +269,10 @@ def run_program(case, drive, twice=False):
             h.start_pause_after(drive[1], ["start"], hold_until_stop_returned=True, while_held=probe)
         elif drive[0] == "pause":
             h.start_pause_after(drive[1], ["start"])
+            # what a pause is for: the user looks at the simulator (prints the event list, its events, the clock)
+            el_ = h.sim.eventlist()
+            starting_log.append(["looked", len(str(el_) + repr(el_)) > 0, str(h.sim.simulator_time) != ""])
+            del starting_log[:]
         elif drive[0] == "pause-other":
             # while this run is paused, unrelated work in the process initialises and runs ANOTHER simulator
             h.start_pause_after(drive[1], ["start"])
